@@ -172,3 +172,1125 @@ Proof.
   destruct H3 as [E|[x (Hx & E & Hf & Hb)]]; [left; exact E|]. right. exists x. split; [exact Hx|]. split; [exact E|].
   split; [exact Hf|]. eapply elt_some. exact Hb.
 Qed.
+
+(* ================= the table ================= *)
+Lemma scan_ext (f g : nat -> entry) k : (forall x, f x = g x) -> forall len lo acc, scan f k lo len acc = scan g k lo len acc.
+Proof. intros H. induction len as [|len IH]; intros lo acc; cbn [scan]; [reflexivity|]. rewrite H. destruct (eltb _ _); apply IH. Qed.
+
+Lemma nth_repeat_lt {A} (a d : A) m i : (i < m)%nat -> nth i (repeat a m) d = a.
+Proof. revert i. induction m as [|m IH]; intros i Hi; [lia|]. destruct i as [|i']; cbn [repeat nth]; [reflexivity|]. apply IH. lia. Qed.
+
+Section TreeP.
+Variables (n : nat) (par : nat -> nat) (dn : nat -> bool).
+Variables (T ein : nat -> nat) (eout : nat -> option nat) (M : nat -> nat) (MM : nat) (c : nat -> nat -> Q).
+Hypothesis Hn : (1 <= n)%nat.
+Hypothesis Hpar : forall i, (i < n - 1)%nat -> (i < par i <= n - 1)%nat.
+Hypothesis HM_ein : forall k, (k < n)%nat -> (ein k + T k <= M k)%nat.
+Hypothesis HM_edge : forall i, (i < n - 1)%nat ->
+  if dn i then (M i + T (par i) <= M (par i))%nat else (M (par i) + T i <= M i)%nat.
+Hypothesis HMM : forall k, (k < n)%nat -> (M k <= MM)%nat.
+
+Notation kup := (kids_up par dn).
+Notation kdn := (kids_dn par dn).
+Notation isout := (is_out n dn).
+Notation ccalc := (calc_c par dn T MM c).
+Notation thout := (theta_out_entry par dn T ein eout M MM c).
+Notation thin := (theta_in_entry par dn T ein eout MM c).
+Notation nrow := (node_row n par dn T ein eout M MM c).
+Notation bld := (build n par dn T ein eout M MM c).
+Notation TB := (tree_tb n par dn T ein eout M MM c).
+Notation leo := (le_eo eout).
+Notation mineo := (min_eo eout).
+
+Lemma kup_in k i : In i (kup k) <-> (i < k)%nat /\ par i = k /\ dn i = true.
+Proof. unfold kids_up. rewrite filter_In, in_seq, andb_true_iff, Nat.eqb_eq. intuition lia. Qed.
+Lemma kdn_in k j : In j (kdn k) <-> (j < k)%nat /\ par j = k /\ dn j = false.
+Proof. unfold kids_dn. rewrite filter_In, in_seq, andb_true_iff, Nat.eqb_eq, negb_true_iff. intuition lia. Qed.
+
+Lemma bld_length k : length (bld k) = k.
+Proof. induction k as [|k IH]; cbn [build]; [reflexivity|]. rewrite app_length, IH. cbn. lia. Qed.
+
+Lemma tval_ext tb1 tb2 i : nth i tb1 [] = nth i tb2 [] -> tval tb1 i = tval tb2 i.
+Proof. intros H. unfold tval, tget. rewrite H. reflexivity. Qed.
+
+Lemma ccalc_ext tb1 tb2 k : (forall i, (i < k)%nat -> nth i tb1 [] = nth i tb2 []) ->
+  forall s si, ccalc tb1 k s si = ccalc tb2 k s si.
+Proof.
+  intros H s si. unfold calc_c.
+  assert (E1 : map (fun i => let r := min_of_range (tval tb1 i) 0 si in (fst r, (i, snd r))) (kup k) =
+               map (fun i => let r := min_of_range (tval tb2 i) 0 si in (fst r, (i, snd r))) (kup k)).
+  { apply map_ext_in. intros i Hi. apply kup_in in Hi. rewrite (tval_ext tb1 tb2 i) by (apply H; lia). reflexivity. }
+  assert (E2 : map (fun j => let r := min_of_range (tval tb1 j) s MM in (fst r, (j, snd r))) (kdn k) =
+               map (fun j => let r := min_of_range (tval tb2 j) s MM in (fst r, (j, snd r))) (kdn k)).
+  { apply map_ext_in. intros j Hj. apply kdn_in in Hj. rewrite (tval_ext tb1 tb2 j) by (apply H; lia). reflexivity. }
+  cbv zeta in *. rewrite E1, E2. reflexivity.
+Qed.
+
+Lemma nrow_ext tb1 tb2 k : (forall i, (i < k)%nat -> nth i tb1 [] = nth i tb2 []) -> nrow tb1 k = nrow tb2 k.
+Proof.
+  intros H. unfold node_row.
+  assert (Eo : forall s, thout tb1 k s = thout tb2 k s).
+  { intros s. unfold theta_out_entry. destruct (leo s k); [|reflexivity]. cbv zeta. apply scan_ext. intros x. apply ccalc_ext. exact H. }
+  assert (Ei : forall si, thin tb1 k si = thin tb2 k si).
+  { intros si. unfold theta_in_entry. cbv zeta. apply scan_ext. intros x. apply ccalc_ext. exact H. }
+  destruct (isout k); cbv zeta.
+  - rewrite (map_ext _ _ Eo). reflexivity.
+  - rewrite (map_ext _ _ Ei). reflexivity.
+Qed.
+
+Lemma bld_nth k : forall i, (i < k)%nat -> nth i (bld k) [] = nrow (bld i) i.
+Proof.
+  induction k as [|k IH]; intros i Hi; [lia|]. cbn [build]. destruct (Nat.eq_dec i k) as [->|Hne].
+  - rewrite app_nth2 by (rewrite bld_length; lia). rewrite bld_length, Nat.sub_diag. reflexivity.
+  - rewrite app_nth1 by (rewrite bld_length; lia). apply IH. lia.
+Qed.
+
+Lemma TB_row k : (k < n)%nat -> nth k TB [] = nrow TB k.
+Proof.
+  intros Hk. unfold tree_tb. rewrite bld_nth by lia. apply nrow_ext. intros i Hi.
+  rewrite !bld_nth by lia. reflexivity.
+Qed.
+
+Lemma isout_true k : isout k = true <-> (k < n - 1)%nat /\ dn k = true.
+Proof. unfold is_out. rewrite andb_true_iff, Nat.ltb_lt. tauto. Qed.
+
+Lemma tget_out k x : (k < n)%nat -> isout k = true -> (x <= MM)%nat ->
+  tget TB k x = thout TB k (Nat.min x (M k)).
+Proof.
+  intros Hk Ho Hx. unfold tget. rewrite TB_row by lia. unfold node_row. rewrite Ho. cbv zeta.
+  pose proof (HMM k Hk) as HMk.
+  set (base := map (thout TB k) (seq 0 (M k + 1))).
+  assert (Lb : length base = (M k + 1)%nat) by (unfold base; rewrite map_length, seq_length; reflexivity).
+  destruct (Nat.le_gt_cases x (M k)) as [Hle|Hgt].
+  - rewrite app_nth1 by lia. unfold base. rewrite nth_map_seq by lia. rewrite Nat.min_l by lia. reflexivity.
+  - rewrite app_nth2 by lia. rewrite nth_repeat_lt by lia. unfold base. rewrite nth_map_seq by lia.
+    rewrite Nat.min_r by lia. reflexivity.
+Qed.
+
+Lemma tget_in k x : (k < n)%nat -> isout k = false -> (x <= MM)%nat ->
+  tget TB k x = thin TB k (Nat.min x (M k - T k)).
+Proof.
+  intros Hk Ho Hx. unfold tget. rewrite TB_row by lia. unfold node_row. rewrite Ho. cbv zeta.
+  pose proof (HMM k Hk) as HMk.
+  set (w := (M k - T k)%nat).
+  set (base := map (thin TB k) (seq 0 (w + 1))).
+  assert (Lb : length base = (w + 1)%nat) by (unfold base; rewrite map_length, seq_length; reflexivity).
+  assert (Hw : (w <= MM)%nat) by (unfold w; lia).
+  destruct (Nat.le_gt_cases x w) as [Hle|Hgt].
+  - rewrite app_nth1 by lia. unfold base. rewrite nth_map_seq by lia. rewrite Nat.min_l by lia. reflexivity.
+  - rewrite app_nth2 by lia. rewrite nth_repeat_lt by lia. unfold base. rewrite nth_map_seq by lia.
+    rewrite Nat.min_r by lia. reflexivity.
+Qed.
+
+Lemma fst_ccalc tb k s si :
+  fst (ccalc tb k s si) =
+  eadd (Some (c k (si + T k - s)%nat))
+       (eadd (esum (map (fun i => fst (min_of_range (tval tb i) 0 si)) (kup k)))
+             (esum (map (fun j => fst (min_of_range (tval tb j) s MM)) (kdn k)))).
+Proof. unfold calc_c. cbv zeta. cbn [fst]. rewrite !map_map. reflexivity. Qed.
+
+(* ================= relaxed assignments: every node chooses S and SI ================= *)
+Section Assign.
+Variables (St SIt : nat -> nat).
+
+Definition node_ok (k : nat) : Prop :=
+  (ein k <= SIt k)%nat /\ (SIt k + T k <= M k)%nat /\ (St k <= SIt k + T k)%nat /\ leo (St k) k = true.
+Definition edge_ok (i : nat) : Prop := if dn i then (St i <= SIt (par i))%nat else (St (par i) <= SIt i)%nat.
+Definition rvalid : Prop := (forall k, (k < n)%nat -> node_ok k) /\ (forall i, (i < n - 1)%nat -> edge_ok i).
+Definition ncost (k : nat) : Q := c k (SIt k + T k - St k)%nat.
+Definition rcost : Q := qsum (map ncost (seq 0 n)).
+Definition key (k : nat) : nat := if isout k then St k else SIt k.
+Definition V (k : nat) : eQ := tval TB k (key k).
+Definition kidsum (k : nat) : eQ := eadd (esum (map V (kup k))) (esum (map V (kdn k))).
+
+Hypothesis Hv : rvalid.
+
+Lemma leo_mineo s k : leo s k = true -> mineo s k = s.
+Proof. unfold le_eo, min_eo. destruct (eout k) as [e|]; [|reflexivity]. intros H. apply Nat.leb_le in H. lia. Qed.
+
+Lemma S_le_M k : (k < n)%nat -> (St k <= M k)%nat.
+Proof. intros Hk. destruct (proj1 Hv k Hk) as (_ & H2 & H3 & _). lia. Qed.
+
+Lemma ccalc_le_kids k : (k < n)%nat ->
+  ele (fst (ccalc TB k (St k) (SIt k))) (eadd (Some (ncost k)) (kidsum k)).
+Proof.
+  intros Hk. rewrite fst_ccalc. unfold ncost, kidsum. apply eadd_mono; [apply ele_refl|].
+  destruct Hv as [Hnode Hedge].
+  apply eadd_mono; apply esum_map_mono.
+  - intros i Hi. apply kup_in in Hi. destruct Hi as (Hik & Hp & Hd).
+    assert (Hi1 : (i < n - 1)%nat) by lia.
+    destruct (min_of_range_spec (tval TB i) 0 (SIt k) ltac:(lia)) as (x & Hx & E & Hmin & _).
+    rewrite E. cbn [fst]. unfold V, key.
+    replace (isout i) with true by (symmetry; apply isout_true; split; assumption).
+    apply Hmin. pose proof (Hedge i Hi1) as He. unfold edge_ok in He. rewrite Hd, Hp in He. lia.
+  - intros j Hj. apply kdn_in in Hj. destruct Hj as (Hjk & Hp & Hd).
+    assert (Hj1 : (j < n - 1)%nat) by lia.
+    pose proof (Hedge j Hj1) as He. unfold edge_ok in He. rewrite Hd, Hp in He.
+    destruct (Hnode j ltac:(lia)) as (_ & Hj2 & _).
+    pose proof (HMM j ltac:(lia)) as Hj3.
+    destruct (min_of_range_spec (tval TB j) (St k) MM ltac:(lia)) as (x & Hx & E & Hmin & _).
+    rewrite E. cbn [fst]. unfold V, key.
+    replace (isout j) with false by (symmetry; unfold is_out; rewrite Hd; apply andb_false_r).
+    apply Hmin. lia.
+Qed.
+
+(* the local inequality:  value of k at its own key  <=  own stage cost + values of its kids *)
+Lemma local_le k : (k < n)%nat -> ele (V k) (eadd (Some (ncost k)) (kidsum k)).
+Proof.
+  intros Hk. eapply ele_trans; [|apply ccalc_le_kids; exact Hk].
+  destruct (proj1 Hv k Hk) as (N1 & N2 & N3 & N4).
+  pose proof (HMM k Hk) as HMk.
+  unfold V, key, tval. destruct (isout k) eqn:Eo.
+  - rewrite tget_out by (try assumption; lia). rewrite Nat.min_l by lia.
+    unfold theta_out_entry. rewrite N4. cbv zeta. rewrite (leo_mineo _ _ N4).
+    destruct (scan_dflt_spec (fun si => ccalc TB k (St k) si) k (Nat.max (ein k) (St k - T k)) (M k - T k + 1 - Nat.max (ein k) (St k - T k))) as (H1 & _).
+    cbv zeta in H1. apply (H1 (SIt k)). lia.
+  - rewrite tget_in by (try assumption; lia). rewrite Nat.min_l by lia.
+    unfold theta_in_entry. cbv zeta. rewrite (Nat.max_l (SIt k) (ein k)) by lia.
+    destruct (scan_dflt_spec (fun s => ccalc TB k s (SIt k)) k 0 (mineo (SIt k + T k) k + 1)) as (H1 & _).
+    cbv zeta in H1. apply (H1 (St k)).
+    unfold min_eo. unfold le_eo in N4. destruct (eout k) as [e|]; [apply Nat.leb_le in N4|]; lia.
+Qed.
+
+(* telescoping over the labelling order *)
+Definition Phi (k : nat) : eQ :=
+  eadd (esum (map V (filter (fun j => Nat.leb k (par j)) (seq 0 k)))) (Some (qsum (map ncost (seq k (n - k))))).
+
+Lemma kidsum_filter k : eeq (esum (map V (filter (fun j => Nat.eqb (par j) k) (seq 0 k)))) (kidsum k).
+Proof.
+  unfold kidsum, kids_up, kids_dn.
+  apply (esum_filter_split V (fun j => Nat.eqb (par j) k) (fun i => Nat.eqb (par i) k && dn i) (fun i => Nat.eqb (par i) k && negb (dn i))).
+  intros x _. destruct (Nat.eqb (par x) k), (dn x); split; reflexivity.
+Qed.
+
+Lemma Phi_step k : (k < n - 1)%nat -> ele (Phi (S k)) (Phi k).
+Proof.
+  intros Hk. unfold Phi.
+  rewrite seq_S, filter_app. cbn [filter Nat.add].
+  replace (Nat.leb (S k) (par k)) with true by (symmetry; apply Nat.leb_le; pose proof (Hpar k Hk); lia).
+  rewrite map_app. cbn [map].
+  replace (n - k)%nat with (S (n - S k)) by lia. cbn [seq map qsum].
+  pose proof (esum_app (map V (filter (fun j => Nat.leb (S k) (par j)) (seq 0 k))) [V k]) as E1. cbn [esum] in E1.
+  pose proof (esum_filter_split V (fun j => Nat.leb k (par j)) (fun j => Nat.eqb (par j) k) (fun j => Nat.leb (S k) (par j)) (seq 0 k)) as E2.
+  assert (E2' := E2 ltac:(intros x _; cbv beta; destruct (Nat.leb_spec k (par x)), (Nat.eqb_spec (par x) k), (Nat.leb_spec (S k) (par x)); split; try reflexivity; lia)).
+  clear E2.
+  pose proof (kidsum_filter k) as E3.
+  pose proof (local_le k ltac:(lia)) as E4.
+  revert E1 E2' E3 E4.
+  generalize (esum (map V (filter (fun j => Nat.leb (S k) (par j)) (seq 0 k)) ++ [V k])).
+  generalize (esum (map V (filter (fun j => Nat.leb (S k) (par j)) (seq 0 k)))).
+  generalize (esum (map V (filter (fun j => Nat.leb k (par j)) (seq 0 k)))).
+  generalize (esum (map V (filter (fun j => Nat.eqb (par j) k) (seq 0 k)))).
+  generalize (kidsum k). generalize (V k). generalize (ncost k). generalize (qsum (map ncost (seq (S k) (n - S k)))).
+  intros q1 q2 a b c0 d e f. destruct a, b, c0, d, e, f; cbn; intros; try tauto; try lra.
+Qed.
+
+Lemma Phi_le_0 k : (k <= n - 1)%nat -> ele (Phi k) (Some rcost).
+Proof.
+  induction k as [|k IH]; intros Hk.
+  - unfold Phi, rcost. cbn [seq filter map esum eadd]. rewrite Nat.sub_0_r. cbn. lra.
+  - eapply ele_trans; [apply Phi_step; lia|apply IH; lia].
+Qed.
+
+(* the value of the root at its key is a lower bound of the relaxed cost *)
+Lemma V_root_le : ele (V (n - 1)) (Some rcost).
+Proof.
+  eapply ele_trans; [apply local_le; lia|]. eapply ele_trans; [|apply (Phi_le_0 (n - 1)); lia].
+  unfold Phi. replace (n - (n - 1))%nat with 1%nat by lia. cbn [seq map qsum].
+  assert (E : filter (fun j => Nat.leb (n - 1) (par j)) (seq 0 (n - 1)) = filter (fun j => Nat.eqb (par j) (n - 1)) (seq 0 (n - 1))).
+  { apply filter_ext_in. intros j Hj. apply in_seq in Hj. pose proof (Hpar j ltac:(lia)).
+    destruct (Nat.leb_spec (n - 1) (par j)), (Nat.eqb_spec (par j) (n - 1)); try reflexivity; lia. }
+  rewrite E. pose proof (kidsum_filter (n - 1)) as E3. revert E3.
+  generalize (esum (map V (filter (fun j => Nat.eqb (par j) (n - 1)) (seq 0 (n - 1))))).
+  generalize (kidsum (n - 1)). generalize (ncost (n - 1)).
+  intros q a b. destruct a, b; cbn; intros; try tauto; try lra.
+Qed.
+
+Lemma root_not_out : isout (n - 1) = false.
+Proof. unfold is_out. rewrite Nat.ltb_irrefl. reflexivity. Qed.
+
+(* T1: the DP value is a lower bound of the cost of every valid relaxed assignment *)
+Theorem tree_cost_le_rcost : ele (tree_cost n par dn T ein eout M MM c) (Some rcost).
+Proof.
+  eapply ele_trans; [|exact V_root_le].
+  unfold tree_cost, tree_root_min.
+  destruct (proj1 Hv (n - 1)%nat ltac:(lia)) as (N1 & N2 & N3 & N4).
+  destruct (min_of_range_spec (tval TB (n - 1)) 0 (M (n - 1) - T (n - 1)) ltac:(lia)) as (x & Hx & E & Hmin & _).
+  rewrite E. cbn [fst]. unfold V, key. rewrite root_not_out. apply Hmin. lia.
+Qed.
+End Assign.
+
+(* ---------- the DP value is finite: the all-zero CST vector is always a valid assignment ---------- *)
+Lemma zero_valid : rvalid (fun _ => 0%nat) (fun k => (M k - T k)%nat).
+Proof.
+  split.
+  - intros k Hk. pose proof (HM_ein k Hk). unfold node_ok. repeat split; try lia.
+    unfold le_eo. destruct (eout k); reflexivity.
+  - intros i Hi. unfold edge_ok. destruct (dn i); lia.
+Qed.
+
+Lemma tree_cost_finite : exists q, tree_cost n par dn T ein eout M MM c = Some q.
+Proof.
+  pose proof (tree_cost_le_rcost _ _ zero_valid) as H.
+  destruct (tree_cost n par dn T ein eout M MM c) as [q|]; [exists q; reflexivity|destruct H].
+Qed.
+
+(* ---------- true CST vectors: SI_k = inbound_cst (gsm_helpers) ---------- *)
+Notation rpr := (rpreds n par dn).
+Definition tfeasible (St : nat -> nat) : Prop := feasible rpr T ein eout (seq 0 n) St = true.
+Definition inb (St : nat -> nat) (k : nat) : nat := inbound_cst rpr ein St k.
+
+Lemma rpr_in k p : (k < n)%nat -> In p (rpr k) <->
+  ((p < k)%nat /\ par p = k /\ dn p = true) \/ ((k < n - 1)%nat /\ dn k = false /\ p = par k).
+Proof.
+  intros Hk. unfold rpreds. rewrite in_app_iff, kup_in.
+  destruct (Nat.ltb_spec k (n - 1)) as [H1|H1]; destruct (dn k) eqn:Ed; cbn [negb andb In]; intuition (try lia; try congruence).
+Qed.
+
+Lemma tfeasible_iff St : tfeasible St <->
+  forall k, (k < n)%nat -> (St k <= inb St k + T k)%nat /\ leo (St k) k = true.
+Proof.
+  unfold tfeasible, feasible. rewrite forallb_forall. split.
+  - intros H k Hk. specialize (H k ltac:(apply in_seq; lia)). unfold node_feasible in H.
+    apply andb_prop in H. destruct H as [H1 H2]. apply Z.leb_le in H1. unfold net_lead_time in H1. fold (inb St k) in H1.
+    split; [lia|exact H2].
+  - intros H k Hk. apply in_seq in Hk. destruct (H k ltac:(lia)) as [H1 H2]. unfold node_feasible.
+    apply andb_true_intro. split; [|exact H2]. apply Z.leb_le. unfold net_lead_time. fold (inb St k). lia.
+Qed.
+
+(* potential that decreases along every upstream step *)
+Definition mu (k : nat) : nat := if isout k then k else (2 * n - 1 - k)%nat.
+Lemma mu_pred k p : (k < n)%nat -> In p (rpr k) -> (p < n)%nat /\ (mu p < mu k)%nat.
+Proof.
+  intros Hk Hp. apply rpr_in in Hp; [|exact Hk]. unfold mu.
+  destruct Hp as [(H1 & H2 & H3)|(H1 & H2 & H3)].
+  - split; [lia|]. replace (isout p) with true by (symmetry; apply isout_true; split; [lia|exact H3]).
+    destruct (isout k); lia.
+  - subst p. pose proof (Hpar k H1) as Hp. split; [lia|].
+    replace (isout k) with false by (symmetry; unfold is_out; rewrite H2; apply andb_false_r).
+    destruct (isout (par k)); lia.
+Qed.
+
+Lemma M_pred k p : (k < n)%nat -> In p (rpr k) -> (M p + T k <= M k)%nat.
+Proof.
+  intros Hk Hp. apply rpr_in in Hp; [|exact Hk].
+  destruct Hp as [(H1 & H2 & H3)|(H1 & H2 & H3)].
+  - pose proof (HM_edge p ltac:(lia)) as H. rewrite H3, H2 in H. exact H.
+  - subst p. pose proof (HM_edge k H1) as H. rewrite H2 in H. exact H.
+Qed.
+
+(* every truly feasible vector stays below the max replenishment times *)
+Lemma feasible_le_M St : tfeasible St -> forall k, (k < n)%nat -> (inb St k + T k <= M k)%nat /\ (St k <= M k)%nat.
+Proof.
+  intros Hf0. pose proof (proj1 (tfeasible_iff St) Hf0) as Hf. clear Hf0.
+  assert (G : forall m k, (mu k < m)%nat -> (k < n)%nat -> (inb St k + T k <= M k)%nat /\ (St k <= M k)%nat).
+  { induction m as [|m IH]; intros k Hm Hk; [lia|].
+    assert (Hi : (inb St k + T k <= M k)%nat).
+    { pose proof (HM_ein k Hk) as He. unfold inb, inbound_cst.
+      assert (lmax (ein k) (map St (rpr k)) <= M k - T k)%nat; [|lia].
+      apply lmax_le; [lia|]. intros x Hx. apply in_map_iff in Hx. destruct Hx as (p & <- & Hp).
+      destruct (mu_pred k p Hk Hp) as [Hpn Hmu]. pose proof (M_pred k p Hk Hp).
+      destruct (IH p ltac:(lia) Hpn) as [_ HS]. lia. }
+    split; [exact Hi|]. destruct (Hf k Hk) as [H1 _]. lia. }
+  intros k Hk. apply (G (S (mu k))); [lia|exact Hk].
+Qed.
+
+Lemma feasible_rvalid St : tfeasible St -> rvalid St (inb St).
+Proof.
+  intros Hf0. pose proof (feasible_le_M St Hf0) as HM'. pose proof (proj1 (tfeasible_iff St) Hf0) as Hf. split.
+  - intros k Hk. destruct (Hf k Hk) as [H1 H2]. destruct (HM' k Hk) as [H3 _].
+    unfold node_ok. repeat split; try assumption. unfold inb, inbound_cst. apply lmax_ge_d.
+  - intros i Hi. unfold edge_ok. pose proof (Hpar i Hi) as Hp. destruct (dn i) eqn:Ed.
+    + unfold inb, inbound_cst. apply lmax_ge_in. apply in_map. apply rpr_in; [lia|]. left. repeat split; [lia|exact Ed].
+    + unfold inb, inbound_cst. apply lmax_ge_in. apply in_map. apply rpr_in; [lia|]. right. repeat split; [exact Hi|exact Ed].
+Qed.
+
+Lemma solution_cost_rcost St : (forall k, (k < n)%nat -> (St k <= inb St k + T k)%nat) ->
+  exists v, solution_cost rpr T ein c (seq 0 n) St = Some v /\ v == rcost St (inb St).
+Proof.
+  intros H. unfold solution_cost.
+  assert (Hall : forallb (fun k => Z.leb 0 (net_lead_time rpr T ein St k)) (seq 0 n) = true).
+  { apply forallb_forall. intros k Hk. apply in_seq in Hk. apply Z.leb_le. unfold net_lead_time. fold (inb St k).
+    specialize (H k ltac:(lia)). lia. }
+  rewrite Hall. eexists. split; [reflexivity|]. unfold rcost.
+  apply qsum_map_ext. intros k Hk. apply in_seq in Hk. unfold net_lead_time, ncost. fold (inb St k).
+  specialize (H k ltac:(lia)).
+  replace (Z.to_nat (Z.of_nat (inb St k) + Z.of_nat (T k) - Z.of_nat (St k))) with (inb St k + T k - St k)%nat by lia.
+  lra.
+Qed.
+
+(* OPTIMALITY: the reported cost is <= the safety-stock cost of EVERY feasible integer CST vector *)
+Theorem tree_dp_lower_bound St : tfeasible St ->
+  exists q v, tree_cost n par dn T ein eout M MM c = Some q /\
+              solution_cost rpr T ein c (seq 0 n) St = Some v /\ q <= v.
+Proof.
+  intros Hf. destruct tree_cost_finite as [q Eq]. 
+  assert (Hf' := proj1 (tfeasible_iff St) Hf).
+  destruct (solution_cost_rcost St (fun k Hk => proj1 (Hf' k Hk))) as (v & Ev & Hv).
+  exists q, v. split; [exact Eq|]. split; [exact Ev|].
+  pose proof (tree_cost_le_rcost _ _ (feasible_rvalid St Hf)) as H. rewrite Eq in H. cbn in H. lra.
+Qed.
+
+(* ================= backtracking ================= *)
+Lemma adj_get_cons a b r key : adj_get ((a, b) :: r) key = if Nat.eqb a key then Some b else adj_get r key.
+Proof. unfold adj_get. cbn [find fst]. destruct (Nat.eqb a key); reflexivity. Qed.
+Lemma adj_get_map_in (h : nat -> nat) l r key : In key l ->
+  adj_get (map (fun i => (i, h i)) l ++ r) key = Some (h key).
+Proof.
+  induction l as [|x l IH]; intros Hin; [destruct Hin|]. cbn [map app]. rewrite adj_get_cons.
+  destruct (Nat.eqb_spec x key) as [->|Hne]; [reflexivity|]. apply IH. destruct Hin; [congruence|assumption].
+Qed.
+Lemma adj_get_map_notin (h : nat -> nat) l r key : ~ In key l ->
+  adj_get (map (fun i => (i, h i)) l ++ r) key = adj_get r key.
+Proof.
+  induction l as [|x l IH]; intros Hin; [reflexivity|]. cbn [map app]. rewrite adj_get_cons.
+  destruct (Nat.eqb_spec x key) as [->|Hne]; [exfalso; apply Hin; left; reflexivity|].
+  apply IH. intros H. apply Hin. right. exact H.
+Qed.
+
+Lemma snd_ccalc tb k s si : snd (ccalc tb k s si) =
+  map (fun i => (i, snd (min_of_range (tval tb i) 0 si))) (kup k) ++
+  map (fun j => (j, snd (min_of_range (tval tb j) s MM))) (kdn k).
+Proof. unfold calc_c. cbv zeta. cbn [snd]. rewrite !map_map. reflexivity. Qed.
+
+Lemma adj_ccalc_up tb p o s si i : In i (kup p) ->
+  adj_get ((p, o) :: snd (ccalc tb p s si)) i = Some (snd (min_of_range (tval tb i) 0 si)).
+Proof.
+  intros Hi. rewrite adj_get_cons. assert (Hlt := proj1 (proj1 (kup_in p i) Hi)).
+  replace (Nat.eqb p i) with false by (symmetry; apply Nat.eqb_neq; lia).
+  rewrite snd_ccalc. apply (adj_get_map_in (fun i => snd (min_of_range (tval tb i) 0 si))). exact Hi.
+Qed.
+Lemma adj_ccalc_dn tb p o s si j : In j (kdn p) ->
+  adj_get ((p, o) :: snd (ccalc tb p s si)) j = Some (snd (min_of_range (tval tb j) s MM)).
+Proof.
+  intros Hj. rewrite adj_get_cons. apply kdn_in in Hj as Hj'. destruct Hj' as (Hlt & Hp & Hd).
+  replace (Nat.eqb p j) with false by (symmetry; apply Nat.eqb_neq; lia).
+  rewrite snd_ccalc. rewrite adj_get_map_notin.
+  - rewrite <- (app_nil_r (map _ (kdn p))). apply (adj_get_map_in (fun j => snd (min_of_range (tval tb j) s MM))). exact Hj.
+  - intros H. apply kup_in in H. destruct H as (_ & _ & H). congruence.
+Qed.
+
+Lemma fin_ccalc_up tb p s si q i : fst (ccalc tb p s si) = Some q -> In i (kup p) ->
+  exists v, fst (min_of_range (tval tb i) 0 si) = Some v.
+Proof.
+  rewrite fst_ccalc. intros H Hi. apply eadd_some in H. destruct H as (_ & y & _ & Ey & _).
+  apply eadd_some in Ey. destruct Ey as (a & _ & Ea & _ & _).
+  apply (esum_some _ _ Ea). apply (in_map (fun i => fst (min_of_range (tval tb i) 0 si))). exact Hi.
+Qed.
+Lemma fin_ccalc_dn tb p s si q j : fst (ccalc tb p s si) = Some q -> In j (kdn p) ->
+  exists v, fst (min_of_range (tval tb j) s MM) = Some v.
+Proof.
+  rewrite fst_ccalc. intros H Hj. apply eadd_some in H. destruct H as (_ & y & _ & Ey & _).
+  apply eadd_some in Ey. destruct Ey as (_ & b & _ & Eb & _).
+  apply (esum_some _ _ Eb). apply (in_map (fun j => fst (min_of_range (tval tb j) s MM))). exact Hj.
+Qed.
+
+Section Back.
+Variable bsi : nat.                 (* best_SI *)
+Notation bk := (back n par dn eout TB bsi).
+
+Definition RSt (R : list (nat * nat)) (k : nat) : nat := fst (nth k R (0%nat, 0%nat)).
+Definition RSI (R : list (nat * nat)) (k : nat) : nat := snd (nth k R (0%nat, 0%nat)).
+Definition keyR (R : list (nat * nat)) (k : nat) : nat := if isout k then RSt R k else RSI R k.
+
+(* the raw equations of the backtracking loop *)
+Definition RE (R : list (nat * nat)) (k : nat) : Prop :=
+  if Nat.eqb k (n - 1) then
+    RSI R k = bsi /\ exists s0, adj_get (snd (tget TB k bsi)) k = Some s0 /\ RSt R k = mineo s0 k
+  else if dn k then
+    exists s0, adj_get (snd (tget TB (par k) (keyR R (par k)))) k = Some s0 /\
+               adj_get (snd (tget TB k s0)) k = Some (RSI R k) /\ RSt R k = mineo s0 k
+  else
+    adj_get (snd (tget TB (par k) (keyR R (par k)))) k = Some (RSI R k) /\
+    exists s0, adj_get (snd (tget TB k (RSI R k))) k = Some s0 /\ RSt R k = mineo s0 k.
+
+Lemma back_inv : forall cnt res R, (cnt <= n)%nat -> length res = (n - cnt)%nat -> bk cnt res = Some R ->
+  (exists pre, R = pre ++ res /\ length pre = cnt) /\ forall k, (k < cnt)%nat -> RE R k.
+Proof.
+  induction cnt as [|k IH]; intros res R Hc Hl Hb.
+  - cbn [back] in Hb. injection Hb as <-. split; [exists []; split; reflexivity|intros; lia].
+  - cbn [back] in Hb.
+    assert (Key : forall p, bk k (p :: res) = Some R ->
+              (exists pre, R = pre ++ res /\ length pre = S k) /\ nth k R (0%nat, 0%nat) = p /\
+              (forall j, (k < j)%nat -> nth j R (0%nat, 0%nat) = nth (j - S k) res (0%nat, 0%nat)) /\
+              forall k', (k' < k)%nat -> RE R k').
+    { intros p Hp. destruct (IH (p :: res) R ltac:(lia) ltac:(cbn [length]; lia) Hp) as [(pre & E & Lp) Hre].
+      split; [exists (pre ++ [p]); split; [rewrite <- app_assoc; exact E|rewrite app_length; cbn; lia]|].
+      split; [rewrite E, app_nth2 by lia; rewrite Lp, Nat.sub_diag; reflexivity|].
+      split; [|exact Hre].
+      intros j Hj. rewrite E, app_nth2 by lia. rewrite Lp. replace (j - k)%nat with (S (j - S k)) by lia. reflexivity. }
+    destruct (Nat.eqb_spec k (n - 1)) as [Ek|Ek].
+    + destruct (adj_get (snd (tget TB k bsi)) k) as [s0|] eqn:Ea; [|discriminate].
+      destruct (Key _ Hb) as (Hpre & Hk & _ & Hre). split; [exact Hpre|].
+      intros k' Hk'. destruct (Nat.eq_dec k' k) as [->|Hne]; [|apply Hre; lia].
+      unfold RE. replace (Nat.eqb k (n - 1)) with true by (symmetry; apply Nat.eqb_eq; exact Ek).
+      unfold RSI, RSt. rewrite Hk. cbn [fst snd]. split; [reflexivity|]. exists s0. split; [exact Ea|reflexivity].
+    + assert (Hkn : (k < n - 1)%nat) by lia. pose proof (Hpar k Hkn) as Hp.
+      set (pk := par k) in *.
+      destruct (dn k) eqn:Ed.
+      * destruct (adj_get (snd (tget TB pk (if isout pk then fst (nth (pk - S k) res (0%nat, 0%nat)) else snd (nth (pk - S k) res (0%nat, 0%nat))))) k) as [s0|] eqn:Ea; [|discriminate].
+        destruct (adj_get (snd (tget TB k s0)) k) as [si|] eqn:Eb; [|discriminate].
+        destruct (Key _ Hb) as (Hpre & Hk & Hup & Hre). split; [exact Hpre|].
+        intros k' Hk'. destruct (Nat.eq_dec k' k) as [->|Hne]; [|apply Hre; lia].
+        unfold RE. replace (Nat.eqb k (n - 1)) with false by (symmetry; apply Nat.eqb_neq; exact Ek). rewrite Ed.
+        fold pk. unfold keyR, RSI, RSt. rewrite Hk, (Hup pk) by lia. cbn [fst snd].
+        exists s0. split; [exact Ea|]. split; [exact Eb|reflexivity].
+      * destruct (adj_get (snd (tget TB pk (if isout pk then fst (nth (pk - S k) res (0%nat, 0%nat)) else snd (nth (pk - S k) res (0%nat, 0%nat))))) k) as [si|] eqn:Ea; [|discriminate].
+        destruct (adj_get (snd (tget TB k si)) k) as [s0|] eqn:Eb; [|discriminate].
+        destruct (Key _ Hb) as (Hpre & Hk & Hup & Hre). split; [exact Hpre|].
+        intros k' Hk'. destruct (Nat.eq_dec k' k) as [->|Hne]; [|apply Hre; lia].
+        unfold RE. replace (Nat.eqb k (n - 1)) with false by (symmetry; apply Nat.eqb_neq; exact Ek). rewrite Ed.
+        fold pk. unfold keyR, RSI, RSt. rewrite Hk, (Hup pk) by lia. cbn [fst snd].
+        split; [exact Ea|]. exists s0. split; [exact Eb|reflexivity].
+Qed.
+End Back.
+
+(* ---------- shape of finite table entries ---------- *)
+Lemma leo_mineo' s k : leo s k = true -> mineo s k = s.
+Proof. unfold le_eo, min_eo. destruct (eout k) as [e|]; [|reflexivity]. intros H. apply Nat.leb_le in H. lia. Qed.
+Lemma le_mineo s0 s k : (s0 <= mineo s k)%nat -> (s0 <= s)%nat /\ leo s0 k = true.
+Proof. unfold le_eo, min_eo. destruct (eout k) as [e|]; intros H; split; try reflexivity; try lia. apply Nat.leb_le. lia. Qed.
+Lemma leo_le s0 s k : (s0 <= s)%nat -> leo s k = true -> leo s0 k = true.
+Proof. unfold le_eo. destruct (eout k) as [e|]; [|reflexivity]. intros H1 H2. apply Nat.leb_le in H2. apply Nat.leb_le. lia. Qed.
+
+Lemma out_entry k x : (k < n)%nat -> isout k = true -> (x <= M k)%nat -> (exists q, tval TB k x = Some q) ->
+  leo x k = true /\
+  exists si, (Nat.max (ein k) (x - T k) <= si <= M k - T k)%nat /\
+    tget TB k x = (fst (ccalc TB k x si), (k, si) :: snd (ccalc TB k x si)) /\
+    (forall y, (Nat.max (ein k) (x - T k) <= y <= M k - T k)%nat -> ele (tval TB k x) (fst (ccalc TB k x y))).
+Proof.
+  intros Hk Ho Hx [q Hq]. pose proof (HMM k Hk) as HMk. unfold tval in *.
+  rewrite tget_out in * by (try assumption; lia). rewrite Nat.min_l in * by lia.
+  unfold theta_out_entry in *. destruct (leo x k) eqn:El; [|discriminate Hq]. split; [reflexivity|].
+  cbv zeta in *. rewrite (leo_mineo' _ _ El) in *.
+  destruct (scan_dflt_spec (fun si => ccalc TB k x si) k (Nat.max (ein k) (x - T k)) (M k - T k + 1 - Nat.max (ein k) (x - T k))) as (H1 & H2).
+  cbv zeta in *. destruct H2 as [E|(si & Hsi & E & _ & _)].
+  - rewrite E in Hq. discriminate Hq.
+  - exists si. split; [lia|]. split; [exact E|]. intros y Hy. apply H1. lia.
+Qed.
+
+Lemma in_entry k x : (k < n)%nat -> isout k = false -> (x <= M k - T k)%nat -> (exists q, tval TB k x = Some q) ->
+  exists s0, (s0 <= mineo (Nat.max x (ein k) + T k) k)%nat /\
+    tget TB k x = (fst (ccalc TB k s0 (Nat.max x (ein k))), (k, s0) :: snd (ccalc TB k s0 (Nat.max x (ein k)))) /\
+    (forall y, (y <= mineo (Nat.max x (ein k) + T k) k)%nat -> ele (tval TB k x) (fst (ccalc TB k y (Nat.max x (ein k))))).
+Proof.
+  intros Hk Ho Hx [q Hq]. pose proof (HMM k Hk) as HMk. unfold tval in *.
+  rewrite tget_in in * by (try assumption; lia). rewrite Nat.min_l in * by lia.
+  unfold theta_in_entry in *. cbv zeta in *.
+  destruct (scan_dflt_spec (fun s => ccalc TB k s (Nat.max x (ein k))) k 0 (mineo (Nat.max x (ein k) + T k) k + 1)) as (H1 & H2).
+  cbv zeta in *. destruct H2 as [E|(s0 & Hs0 & E & _ & _)].
+  - rewrite E in Hq. discriminate Hq.
+  - exists s0. split; [lia|]. split; [exact E|]. intros y Hy. apply H1. lia.
+Qed.
+
+Lemma tval_out_ext k x : (k < n)%nat -> isout k = true -> (M k <= x <= MM)%nat -> tval TB k x = tval TB k (M k).
+Proof. intros Hk Ho Hx. pose proof (HMM k Hk). unfold tval. rewrite !tget_out by (try assumption; lia).
+  rewrite Nat.min_r by lia. rewrite Nat.min_id. reflexivity. Qed.
+Lemma tval_in_ext k x : (k < n)%nat -> isout k = false -> (M k - T k <= x <= MM)%nat -> tval TB k x = tval TB k (M k - T k).
+Proof. intros Hk Ho Hx. pose proof (HMM k Hk). unfold tval. rewrite !tget_in by (try assumption; lia).
+  rewrite Nat.min_r by lia. rewrite Nat.min_id. reflexivity. Qed.
+Lemma elt_irrefl_eq a b : a = b -> elt a b -> False.
+Proof. intros ->. destruct b; cbn; [lra|tauto]. Qed.
+
+(* ================= meaning of the backtracked solution ================= *)
+Section Sol.
+Variable R : list (nat * nat).
+Variable cnt : nat.                 (* the nodes cnt .. n-1 have been backtracked so far *)
+Notation trm := (tree_root_min n par dn T ein eout M MM c).
+Hypothesis HRE : forall k, (cnt <= k < n)%nat -> RE (snd trm) R k.
+Notation St := (RSt R).
+Notation SIt := (RSI R).
+Notation keyk := (keyR R).
+(* the inbound time the DP charges node k with *)
+Definition SIloc (k : nat) : nat := if isout k then SIt k else Nat.max (SIt k) (ein k).
+
+Definition Facts (k : nat) : Prop :=
+  (exists q, tval TB k (keyk k) = Some q) /\
+  tget TB k (keyk k) = (fst (ccalc TB k (St k) (SIloc k)),
+                        (k, if isout k then SIt k else St k) :: snd (ccalc TB k (St k) (SIloc k))) /\
+  node_ok St SIloc k /\
+  (isout k = false -> (SIt k <= M k - T k)%nat).
+
+Definition Link (k : nat) : Prop :=
+  if dn k then
+    (St k <= SIloc (par k))%nat /\ fst (min_of_range (tval TB k) 0 (SIloc (par k))) = tval TB k (St k) /\
+    forall y, (y < St k)%nat -> elt (tval TB k (St k)) (tval TB k y)
+  else
+    (St (par k) <= SIt k)%nat /\ fst (min_of_range (tval TB k) (St (par k)) MM) = tval TB k (SIt k) /\
+    forall y, (St (par k) <= y < SIt k)%nat -> elt (tval TB k (SIt k)) (tval TB k y).
+
+Definition RootLink : Prop :=
+  fst trm = tval TB (n - 1) (SIt (n - 1)) /\
+  forall y, (y < SIt (n - 1))%nat -> elt (tval TB (n - 1) (SIt (n - 1))) (tval TB (n - 1) y).
+
+Lemma root_facts : (cnt <= n - 1)%nat -> Facts (n - 1) /\ RootLink.
+Proof.
+  intros Hcnt. pose proof (HRE (n - 1)%nat ltac:(lia)) as H. unfold RE in H. rewrite Nat.eqb_refl in H.
+  destruct H as (E1 & s0 & E2 & E3).
+  destruct (min_of_range_spec (tval TB (n - 1)) 0 (M (n - 1) - T (n - 1)) ltac:(lia)) as (x & Hx & E & Hmin & Hfirst).
+  destruct tree_cost_finite as [q Hq]. unfold tree_cost in Hq. unfold RootLink.
+  unfold tree_root_min in *. rewrite E in *. cbn [fst snd] in *.
+  assert (Hkey : keyk (n - 1) = x) by (unfold keyR; rewrite root_not_out; exact E1).
+  pose proof (HM_ein (n - 1)%nat ltac:(lia)) as He.
+  destruct (in_entry (n - 1) x ltac:(lia) root_not_out ltac:(lia) (ex_intro _ q Hq)) as (s1 & Hs1 & Ent & Hle).
+  rewrite Ent in E2. cbn [snd] in E2. rewrite adj_get_cons, Nat.eqb_refl in E2. injection E2 as <-.
+  destruct (le_mineo _ _ _ Hs1) as [Hs1a Hs1b]. rewrite (leo_mineo' _ _ Hs1b) in E3.
+  assert (ESI : SIloc (n - 1) = Nat.max x (ein (n - 1))) by (unfold SIloc; rewrite root_not_out, E1; reflexivity).
+  split; [|split; [rewrite E1; reflexivity|rewrite E1; intros y Hy; apply Hfirst; lia]].
+  unfold Facts. rewrite Hkey, ESI, E3, root_not_out. split; [exists q; exact Hq|]. split; [exact Ent|]. split.
+  - unfold node_ok. rewrite ESI, E3. repeat split; try lia. exact Hs1b.
+  - intros _. rewrite E1. lia.
+Qed.
+
+Lemma step_facts k : (cnt <= k < n - 1)%nat -> Facts (par k) -> Facts k /\ Link k.
+Proof.
+  intros [Hcnt Hk] (Ap & Bp & Cp & Dp). pose proof (Hpar k Hk) as Hp. set (p := par k) in *.
+  pose proof (HRE k ltac:(lia)) as H. unfold RE in H.
+  replace (Nat.eqb k (n - 1)) with false in H by (symmetry; apply Nat.eqb_neq; lia). fold p in H.
+  destruct Ap as [qp Ap]. unfold tval in Ap. rewrite Bp in Ap. cbn [fst] in Ap.
+  destruct Cp as (Cp1 & Cp2 & Cp3 & Cp4).
+  pose proof (HMM p ltac:(lia)) as HMp. pose proof (HMM k ltac:(lia)) as HMk.
+  pose proof (HM_ein k ltac:(lia)) as Hek. pose proof (HM_edge k Hk) as Hedge. fold p in Hedge.
+  unfold Link. fold p. destruct (dn k) eqn:Ed.
+  - (* k is upstream of p: theta_out *)
+    assert (Ho : isout k = true) by (apply isout_true; split; [exact Hk|exact Ed]).
+    assert (Hin : In k (kup p)) by (apply kup_in; split; [lia|split; [reflexivity|exact Ed]]).
+    destruct H as (s0 & E1 & E2 & E3).
+    rewrite Bp in E1. cbn [snd] in E1. rewrite (adj_ccalc_up TB p _ _ _ k Hin) in E1. injection E1 as E1.
+    destruct (fin_ccalc_up TB p _ _ qp k Ap Hin) as [v Hv].
+    destruct (min_of_range_spec (tval TB k) 0 (SIloc p) ltac:(lia)) as (x & Hx & E & Hmin & Hfirst).
+    rewrite E in *. cbn [fst snd] in *. subst s0.
+    assert (HxM : (x <= M k)%nat).
+    { destruct (Nat.le_gt_cases x (M k)) as [Hle|Hgt]; [exact Hle|]. exfalso.
+      apply (elt_irrefl_eq (tval TB k x) (tval TB k (M k))); [apply tval_out_ext; try assumption; lia|apply Hfirst; lia]. }
+    destruct (out_entry k x ltac:(lia) Ho HxM (ex_intro _ v Hv)) as (Hl & si & Hsi & Ent & Hle).
+    rewrite (leo_mineo' _ _ Hl) in E3.
+    rewrite Ent in E2. cbn [snd] in E2. rewrite adj_get_cons, Nat.eqb_refl in E2. injection E2 as E2.
+    assert (ESI : SIloc k = si) by (unfold SIloc; rewrite Ho; symmetry; exact E2).
+    assert (Hkey : keyk k = x) by (unfold keyR; rewrite Ho; exact E3).
+    split.
+    + unfold Facts. rewrite Hkey, ESI, E3, Ho, <- E2. split; [exists v; exact Hv|]. split; [exact Ent|]. split.
+      * unfold node_ok. rewrite ESI, E3. repeat split; try lia. exact Hl.
+      * intros Hc. discriminate Hc.
+    + rewrite E3. split; [lia|]. split; [reflexivity|]. intros y Hy. apply Hfirst. lia.
+  - (* p is upstream of k: theta_in *)
+    assert (Ho : isout k = false) by (unfold is_out; rewrite Ed; apply andb_false_r).
+    assert (Hin : In k (kdn p)) by (apply kdn_in; split; [lia|split; [reflexivity|exact Ed]]).
+    destruct H as (E1 & s0 & E2 & E3).
+    rewrite Bp in E1. cbn [snd] in E1. rewrite (adj_ccalc_dn TB p _ _ _ k Hin) in E1. injection E1 as E1.
+    destruct (fin_ccalc_dn TB p _ _ qp k Ap Hin) as [v Hv].
+    destruct (min_of_range_spec (tval TB k) (St p) MM ltac:(lia)) as (x & Hx & E & Hmin & Hfirst).
+    rewrite E in *. cbn [fst snd] in *.
+    assert (HxM : (x <= M k - T k)%nat).
+    { destruct (Nat.le_gt_cases x (M k - T k)) as [Hle|Hgt]; [exact Hle|]. exfalso.
+      apply (elt_irrefl_eq (tval TB k x) (tval TB k (M k - T k))); [apply tval_in_ext; try assumption; lia|apply Hfirst; lia]. }
+    rewrite <- E1 in *.
+    destruct (in_entry k x ltac:(lia) Ho HxM (ex_intro _ v Hv)) as (s1 & Hs1 & Ent & Hle).
+    rewrite Ent in E2. cbn [snd] in E2. rewrite adj_get_cons, Nat.eqb_refl in E2. injection E2 as <-.
+    destruct (le_mineo _ _ _ Hs1) as [Hs1a Hs1b]. rewrite (leo_mineo' _ _ Hs1b) in E3.
+    assert (ESI : SIloc k = Nat.max x (ein k)) by (unfold SIloc; rewrite Ho, <- E1; reflexivity).
+    assert (Hkey : keyk k = x) by (unfold keyR; rewrite Ho; symmetry; exact E1).
+    split.
+    + unfold Facts. rewrite Hkey, ESI, E3, Ho. split; [exists v; exact Hv|]. split; [exact Ent|]. split.
+      * unfold node_ok. rewrite ESI, E3. repeat split; try lia. exact Hs1b.
+      * intros _. lia.
+    + split; [lia|]. split; [reflexivity|]. intros y Hy. apply Hfirst. lia.
+Qed.
+
+Lemma all_facts : forall k, (cnt <= k < n)%nat -> Facts k /\ ((k < n - 1)%nat -> Link k).
+Proof.
+  assert (G : forall d k, (n - 1 - k <= d)%nat -> (cnt <= k < n)%nat -> Facts k /\ ((k < n - 1)%nat -> Link k)).
+  { induction d as [|d IH]; intros k Hd Hk.
+    - assert (k = n - 1)%nat by lia. subst k. split; [apply root_facts; lia|intros; lia].
+    - destruct (Nat.eq_dec k (n - 1)) as [->|Hne]; [split; [apply root_facts; lia|intros; lia]|].
+      pose proof (Hpar k ltac:(lia)) as Hp.
+      destruct (IH (par k) ltac:(lia) ltac:(lia)) as [Fp _].
+      destruct (step_facts k ltac:(lia) Fp) as [Fk Lk]. split; [exact Fk|intros _; exact Lk]. }
+  intros k Hk. apply (G (n - 1 - k)%nat); [lia|exact Hk].
+Qed.
+
+(* the two dictionary look-ups of the backtracking step of node k succeed (no KeyError) *)
+Lemma step_progress k : (k < n - 1)%nat -> Facts (par k) ->
+  exists a b, adj_get (snd (tget TB (par k) (keyk (par k)))) k = Some a /\ adj_get (snd (tget TB k a)) k = Some b.
+Proof.
+  intros Hk (Ap & Bp & Cp & Dp). pose proof (Hpar k Hk) as Hp. set (p := par k) in *.
+  destruct Ap as [qp Ap]. unfold tval in Ap. rewrite Bp in Ap. cbn [fst] in Ap.
+  destruct Cp as (Cp1 & Cp2 & Cp3 & Cp4).
+  pose proof (HMM p ltac:(lia)) as HMp. pose proof (HMM k ltac:(lia)) as HMk.
+  pose proof (HM_ein k ltac:(lia)) as Hek. pose proof (HM_edge k Hk) as Hedge. fold p in Hedge.
+  rewrite Bp. cbn [snd]. destruct (dn k) eqn:Ed.
+  - assert (Ho : isout k = true) by (apply isout_true; split; [exact Hk|exact Ed]).
+    assert (Hin : In k (kup p)) by (apply kup_in; split; [lia|split; [reflexivity|exact Ed]]).
+    rewrite (adj_ccalc_up TB p _ _ _ k Hin).
+    destruct (fin_ccalc_up TB p _ _ qp k Ap Hin) as [v Hv].
+    destruct (min_of_range_spec (tval TB k) 0 (SIloc p) ltac:(lia)) as (x & Hx & E & Hmin & Hfirst).
+    rewrite E in *. cbn [fst snd] in *.
+    assert (HxM : (x <= M k)%nat).
+    { destruct (Nat.le_gt_cases x (M k)) as [Hle|Hgt]; [exact Hle|]. exfalso.
+      apply (elt_irrefl_eq (tval TB k x) (tval TB k (M k))); [apply tval_out_ext; try assumption; lia|apply Hfirst; lia]. }
+    destruct (out_entry k x ltac:(lia) Ho HxM (ex_intro _ v Hv)) as (Hl & si & Hsi & Ent & Hle).
+    exists x, si. split; [reflexivity|]. rewrite Ent. cbn [snd]. rewrite adj_get_cons, Nat.eqb_refl. reflexivity.
+  - assert (Ho : isout k = false) by (unfold is_out; rewrite Ed; apply andb_false_r).
+    assert (Hin : In k (kdn p)) by (apply kdn_in; split; [lia|split; [reflexivity|exact Ed]]).
+    rewrite (adj_ccalc_dn TB p _ _ _ k Hin).
+    destruct (fin_ccalc_dn TB p _ _ qp k Ap Hin) as [v Hv].
+    destruct (min_of_range_spec (tval TB k) (St p) MM ltac:(lia)) as (x & Hx & E & Hmin & Hfirst).
+    rewrite E in *. cbn [fst snd] in *.
+    assert (HxM : (x <= M k - T k)%nat).
+    { destruct (Nat.le_gt_cases x (M k - T k)) as [Hle|Hgt]; [exact Hle|]. exfalso.
+      apply (elt_irrefl_eq (tval TB k x) (tval TB k (M k - T k))); [apply tval_in_ext; try assumption; lia|apply Hfirst; lia]. }
+    destruct (in_entry k x ltac:(lia) Ho HxM (ex_intro _ v Hv)) as (s1 & Hs1 & Ent & Hle).
+    exists x, s1. split; [reflexivity|]. rewrite Ent. cbn [snd]. rewrite adj_get_cons, Nat.eqb_refl. reflexivity.
+Qed.
+End Sol.
+
+Lemma root_progress : exists s0, adj_get (snd (tget TB (n - 1) (snd (tree_root_min n par dn T ein eout M MM c)))) (n - 1) = Some s0.
+Proof.
+  destruct (min_of_range_spec (tval TB (n - 1)) 0 (M (n - 1) - T (n - 1)) ltac:(lia)) as (x & Hx & E & Hmin & Hfirst).
+  destruct tree_cost_finite as [q Hq]. unfold tree_cost in Hq.
+  unfold tree_root_min in *. rewrite E in *. cbn [fst snd] in *.
+  destruct (in_entry (n - 1) x ltac:(lia) root_not_out ltac:(lia) (ex_intro _ q Hq)) as (s1 & Hs1 & Ent & Hle).
+  exists s1. rewrite Ent. cbn [snd]. rewrite adj_get_cons, Nat.eqb_refl. reflexivity.
+Qed.
+
+(* ---------- the backtracking loop never hits a missing key ---------- *)
+Notation trm := (tree_root_min n par dn T ein eout M MM c).
+Definition pad (cnt : nat) (res : list (nat * nat)) : list (nat * nat) := repeat (0%nat, 0%nat) cnt ++ res.
+Lemma pad_nth cnt res j : (cnt <= j)%nat -> nth j (pad cnt res) (0%nat, 0%nat) = nth (j - cnt) res (0%nat, 0%nat).
+Proof. intros H. unfold pad. rewrite app_nth2 by (rewrite repeat_length; lia). rewrite repeat_length. reflexivity. Qed.
+
+Lemma RE_ext bsi R R' k : (k <= n - 1)%nat ->
+  (forall j, (k <= j)%nat -> nth j R (0%nat, 0%nat) = nth j R' (0%nat, 0%nat)) -> RE bsi R k -> RE bsi R' k.
+Proof.
+  intros Hk H. unfold RE, keyR, RSt, RSI. rewrite (H k) by lia.
+  destruct (Nat.eqb_spec k (n - 1)) as [E|E]; [tauto|].
+  pose proof (Hpar k ltac:(lia)). rewrite (H (par k)) by lia. tauto.
+Qed.
+
+Lemma back_total : forall cnt res, (cnt <= n)%nat -> length res = (n - cnt)%nat ->
+  (forall k, (cnt <= k < n)%nat -> RE (snd trm) (pad cnt res) k) ->
+  exists R, back n par dn eout TB (snd trm) cnt res = Some R.
+Proof.
+  induction cnt as [|k IH]; intros res Hc Hl HRE.
+  - exists res. reflexivity.
+  - cbn [back].
+    assert (Hshift : forall p j, (S k <= j)%nat -> nth j (pad (S k) res) (0%nat, 0%nat) = nth j (pad k (p :: res)) (0%nat, 0%nat)).
+    { intros p j Hj. rewrite !pad_nth by lia. replace (j - k)%nat with (S (j - S k)) by lia. reflexivity. }
+    assert (Hold : forall p k', (S k <= k' < n)%nat -> RE (snd trm) (pad k (p :: res)) k').
+    { intros p k' Hk'. apply (RE_ext (snd trm) (pad (S k) res)); [lia| |apply HRE; lia].
+      intros j Hj. apply Hshift. lia. }
+    assert (Hhead : forall p, nth k (pad k (p :: res)) (0%nat, 0%nat) = p).
+    { intros p. rewrite pad_nth by lia. rewrite Nat.sub_diag. reflexivity. }
+    destruct (Nat.eqb_spec k (n - 1)) as [Ek|Ek].
+    + destruct root_progress as [s0 Es0]. rewrite <- Ek in Es0. rewrite Es0.
+      apply IH; [lia|cbn [length]; lia|].
+      intros k' Hk'. destruct (Nat.eq_dec k' k) as [->|Hne]; [|apply Hold; lia].
+      unfold RE. replace (Nat.eqb k (n - 1)) with true by (symmetry; apply Nat.eqb_eq; exact Ek).
+      unfold RSI, RSt. rewrite Hhead. cbn [fst snd]. split; [reflexivity|]. exists s0. split; [exact Es0|reflexivity].
+    + assert (Hkn : (k < n - 1)%nat) by lia. pose proof (Hpar k Hkn) as Hp.
+      destruct (all_facts (pad (S k) res) (S k) HRE (par k) ltac:(lia)) as [Fp _].
+      destruct (step_progress (pad (S k) res) k Hkn Fp) as (a & b & Ea & Eb).
+      unfold keyR, RSt, RSI in Ea. rewrite (pad_nth (S k) res (par k)) in Ea by lia.
+      rewrite Ea. destruct (dn k) eqn:Ed; rewrite Eb.
+      * apply IH; [lia|cbn [length]; lia|].
+        intros k' Hk'. destruct (Nat.eq_dec k' k) as [->|Hne]; [|apply Hold; lia].
+        unfold RE. replace (Nat.eqb k (n - 1)) with false by (symmetry; apply Nat.eqb_neq; exact Ek). rewrite Ed.
+        unfold keyR, RSI, RSt. rewrite Hhead. rewrite <- (Hshift _ (par k)) by lia. rewrite (pad_nth (S k) res (par k)) by lia.
+        cbn [fst snd]. exists a. split; [exact Ea|]. split; [exact Eb|reflexivity].
+      * apply IH; [lia|cbn [length]; lia|].
+        intros k' Hk'. destruct (Nat.eq_dec k' k) as [->|Hne]; [|apply Hold; lia].
+        unfold RE. replace (Nat.eqb k (n - 1)) with false by (symmetry; apply Nat.eqb_neq; exact Ek). rewrite Ed.
+        unfold keyR, RSI, RSt. rewrite Hhead. rewrite <- (Hshift _ (par k)) by lia. rewrite (pad_nth (S k) res (par k)) by lia.
+        cbn [fst snd]. split; [exact Ea|]. exists b. split; [exact Eb|reflexivity].
+Qed.
+
+Theorem tree_sol_some : exists R, tree_sol n par dn T ein eout M MM c = Some R /\ length R = n /\
+  forall k, (k < n)%nat -> RE (snd trm) R k.
+Proof.
+  destruct (back_total n [] ltac:(lia) ltac:(cbn; lia) ltac:(intros; lia)) as [R HR].
+  exists R. split; [exact HR|].
+  destruct (back_inv (snd trm) n [] R ltac:(lia) ltac:(cbn; lia) HR) as [(pre & E & Lp) Hre].
+  split; [rewrite E, app_nil_r; exact Lp|exact Hre].
+Qed.
+
+(* ---------- telescoping with equality ---------- *)
+Section Tele.
+Variables (St SIt : nat -> nat).
+Hypothesis Hloc : forall k, (k < n)%nat -> eeq (V St SIt k) (eadd (Some (ncost St SIt k)) (kidsum St SIt k)).
+
+Lemma Phi_step_eq k : (k < n - 1)%nat -> eeq (Phi St SIt (S k)) (Phi St SIt k).
+Proof.
+  intros Hk. unfold Phi.
+  rewrite seq_S, filter_app. cbn [filter Nat.add].
+  replace (Nat.leb (S k) (par k)) with true by (symmetry; apply Nat.leb_le; pose proof (Hpar k Hk); lia).
+  rewrite map_app. cbn [map].
+  replace (n - k)%nat with (S (n - S k)) by lia. cbn [seq map qsum].
+  pose proof (esum_app (map (V St SIt) (filter (fun j => Nat.leb (S k) (par j)) (seq 0 k))) [V St SIt k]) as E1. cbn [esum] in E1.
+  pose proof (esum_filter_split (V St SIt) (fun j => Nat.leb k (par j)) (fun j => Nat.eqb (par j) k) (fun j => Nat.leb (S k) (par j)) (seq 0 k)) as E2.
+  assert (E2' := E2 ltac:(intros x _; cbv beta; destruct (Nat.leb_spec k (par x)), (Nat.eqb_spec (par x) k), (Nat.leb_spec (S k) (par x)); split; try reflexivity; lia)).
+  clear E2.
+  pose proof (kidsum_filter St SIt k) as E3.
+  pose proof (Hloc k ltac:(lia)) as E4.
+  revert E1 E2' E3 E4.
+  generalize (esum (map (V St SIt) (filter (fun j => Nat.leb (S k) (par j)) (seq 0 k)) ++ [V St SIt k])).
+  generalize (esum (map (V St SIt) (filter (fun j => Nat.leb (S k) (par j)) (seq 0 k)))).
+  generalize (esum (map (V St SIt) (filter (fun j => Nat.leb k (par j)) (seq 0 k)))).
+  generalize (esum (map (V St SIt) (filter (fun j => Nat.eqb (par j) k) (seq 0 k)))).
+  generalize (kidsum St SIt k). generalize (V St SIt k). generalize (ncost St SIt k).
+  generalize (qsum (map (ncost St SIt) (seq (S k) (n - S k)))).
+  intros q1 q2 a b c0 d e f. destruct a, b, c0, d, e, f; cbn; intros; try tauto; try lra.
+Qed.
+
+Lemma Phi_eq_0 k : (k <= n - 1)%nat -> eeq (Phi St SIt k) (Some (rcost St SIt)).
+Proof.
+  induction k as [|k IH]; intros Hk.
+  - unfold Phi, rcost. cbn [seq filter map esum eadd]. rewrite Nat.sub_0_r. cbn. lra.
+  - eapply eeq_trans; [apply Phi_step_eq; lia|apply IH; lia].
+Qed.
+
+Lemma V_root_eq : eeq (V St SIt (n - 1)) (Some (rcost St SIt)).
+Proof.
+  eapply eeq_trans; [apply Hloc; lia|]. eapply eeq_trans; [|apply (Phi_eq_0 (n - 1)); lia].
+  unfold Phi. replace (n - (n - 1))%nat with 1%nat by lia. cbn [seq map qsum].
+  assert (E : filter (fun j => Nat.leb (n - 1) (par j)) (seq 0 (n - 1)) = filter (fun j => Nat.eqb (par j) (n - 1)) (seq 0 (n - 1))).
+  { apply filter_ext_in. intros j Hj. apply in_seq in Hj. pose proof (Hpar j ltac:(lia)).
+    destruct (Nat.leb_spec (n - 1) (par j)), (Nat.eqb_spec (par j) (n - 1)); try reflexivity; lia. }
+  rewrite E. pose proof (kidsum_filter St SIt (n - 1)) as E3. revert E3.
+  generalize (esum (map (V St SIt) (filter (fun j => Nat.eqb (par j) (n - 1)) (seq 0 (n - 1))))).
+  generalize (kidsum St SIt (n - 1)). generalize (ncost St SIt (n - 1)).
+  intros q a b. destruct a, b; cbn; intros; try tauto; try lra.
+Qed.
+End Tele.
+
+(* ================= the returned solution ================= *)
+Section Final.
+Variable R : list (nat * nat).
+Hypothesis HRE : forall k, (k < n)%nat -> RE (snd trm) R k.
+Notation St := (RSt R).
+Notation SIt := (RSI R).
+Notation SIl := (SIloc R).
+
+Lemma HRE0 : forall k, (0 <= k < n)%nat -> RE (snd trm) R k.
+Proof. intros k Hk. apply HRE. lia. Qed.
+Lemma facts k : (k < n)%nat -> Facts R k /\ ((k < n - 1)%nat -> Link R k).
+Proof. intros Hk. apply (all_facts R 0 HRE0). lia. Qed.
+
+Lemma sol_rvalid : rvalid St SIl.
+Proof.
+  split.
+  - intros k Hk. destruct (facts k Hk) as [(_ & _ & C & _) _]. exact C.
+  - intros i Hi. destruct (facts i ltac:(lia)) as [_ L]. specialize (L Hi). unfold Link in L. unfold edge_ok.
+    destruct (dn i) eqn:Ed.
+    + destruct L as (L1 & _). exact L1.
+    + destruct L as (L1 & _). unfold SIloc. replace (isout i) with false by (symmetry; unfold is_out; rewrite Ed; apply andb_false_r). lia.
+Qed.
+
+Lemma V_key k : (k < n)%nat -> V St SIl k = tval TB k (keyR R k).
+Proof.
+  intros Hk. unfold V, key, keyR. destruct (isout k) eqn:Eo; [reflexivity|].
+  destruct (facts k Hk) as [(_ & _ & (C1 & C2 & _) & D) _]. specialize (D Eo).
+  pose proof (HMM k Hk) as HMk. unfold SIloc in *. rewrite Eo in *.
+  unfold tval. rewrite !tget_in by (try assumption; lia). rewrite !Nat.min_l by lia.
+  unfold theta_in_entry. cbv zeta.
+  replace (Nat.max (Nat.max (SIt k) (ein k)) (ein k)) with (Nat.max (SIt k) (ein k)) by lia. reflexivity.
+Qed.
+
+Lemma V_kid_up i : (i < n - 1)%nat -> dn i = true -> V St SIl i = tval TB i (St i).
+Proof. intros Hi Ed. rewrite V_key by lia. unfold keyR. replace (isout i) with true by (symmetry; apply isout_true; split; assumption). reflexivity. Qed.
+Lemma V_kid_dn j : (j < n - 1)%nat -> dn j = false -> V St SIl j = tval TB j (SIt j).
+Proof. intros Hj Ed. rewrite V_key by lia. unfold keyR. replace (isout j) with false by (symmetry; unfold is_out; rewrite Ed; apply andb_false_r). reflexivity. Qed.
+
+Lemma sol_local k : (k < n)%nat -> eeq (V St SIl k) (eadd (Some (ncost St SIl k)) (kidsum St SIl k)).
+Proof.
+  intros Hk. rewrite V_key by exact Hk. destruct (facts k Hk) as [(_ & B & _ & _) _].
+  unfold tval. rewrite B. cbn [fst]. rewrite fst_ccalc. unfold ncost, kidsum.
+  apply eadd_eeq; [apply eeq_refl|]. apply eadd_eeq; apply esum_map_eeq.
+  - intros i Hi. apply kup_in in Hi. destruct Hi as (Hik & Hp & Hd).
+    destruct (facts i ltac:(lia)) as [_ L]. specialize (L ltac:(lia)). unfold Link in L. rewrite Hd, Hp in L.
+    destruct L as (_ & L2 & _). rewrite L2. rewrite V_kid_up by (try assumption; lia). apply eeq_refl.
+  - intros j Hj. apply kdn_in in Hj. destruct Hj as (Hjk & Hp & Hd).
+    destruct (facts j ltac:(lia)) as [_ L]. specialize (L ltac:(lia)). unfold Link in L. rewrite Hd, Hp in L.
+    destruct L as (_ & L2 & _). rewrite L2. rewrite V_kid_dn by (try assumption; lia). apply eeq_refl.
+Qed.
+
+(* reported cost = cost the DP charges the backtracked solution with *)
+Lemma sol_cost : exists q, tree_cost n par dn T ein eout M MM c = Some q /\ q == rcost St SIl.
+Proof.
+  destruct (root_facts R 0 HRE0 ltac:(lia)) as [_ [RL _]].
+  pose proof (V_root_eq St SIl sol_local) as H.
+  rewrite V_key in H by lia. unfold keyR in H. rewrite root_not_out in H. rewrite <- RL in H.
+  unfold tree_cost. destruct (fst trm) as [q|]; [|destruct H]. exists q. split; [reflexivity|exact H].
+Qed.
+
+(* ---------- the returned vector is feasible for the TRUE inbound times (gsm_helpers.inbound_cst) ---------- *)
+Lemma out_le k x y : (k < n)%nat -> isout k = true -> (x <= M k)%nat -> leo x k = true ->
+  (Nat.max (ein k) (x - T k) <= y <= M k - T k)%nat -> ele (tval TB k x) (fst (ccalc TB k x y)).
+Proof.
+  intros Hk Ho Hx Hl Hy. pose proof (HMM k Hk) as HMk. unfold tval.
+  rewrite tget_out by (try assumption; lia). rewrite Nat.min_l by lia.
+  unfold theta_out_entry. rewrite Hl. cbv zeta. rewrite (leo_mineo' _ _ Hl).
+  destruct (scan_dflt_spec (fun si => ccalc TB k x si) k (Nat.max (ein k) (x - T k)) (M k - T k + 1 - Nat.max (ein k) (x - T k))) as (H1 & _).
+  cbv zeta in H1. apply H1. lia.
+Qed.
+Lemma in_le k x y : (k < n)%nat -> isout k = false -> (x <= M k - T k)%nat ->
+  (y <= mineo (Nat.max x (ein k) + T k) k)%nat -> ele (tval TB k x) (fst (ccalc TB k y (Nat.max x (ein k)))).
+Proof.
+  intros Hk Ho Hx Hy. pose proof (HMM k Hk) as HMk. unfold tval.
+  rewrite tget_in by (try assumption; lia). rewrite Nat.min_l by lia.
+  unfold theta_in_entry. cbv zeta.
+  destruct (scan_dflt_spec (fun s => ccalc TB k s (Nat.max x (ein k))) k 0 (mineo (Nat.max x (ein k) + T k) k + 1)) as (H1 & _).
+  cbv zeta in H1. apply H1. lia.
+Qed.
+Lemma mineo_ge s0 s k : (s0 <= s)%nat -> leo s0 k = true -> (s0 <= mineo s k)%nat.
+Proof. unfold le_eo, min_eo. destruct (eout k) as [e|]; intros H1 H2; [apply Nat.leb_le in H2|]; lia. Qed.
+
+(* lowering S and SI of node k together by one does not increase the DP charge, as long as the upstream kids fit *)
+Lemma ccalc_shift k s si : (1 <= s)%nat -> (1 <= si)%nat -> (s <= si + T k)%nat -> (s <= MM)%nat ->
+  (forall i, In i (kup k) -> (St i <= si - 1)%nat /\ fst (min_of_range (tval TB i) 0 si) = tval TB i (St i)) ->
+  ele (fst (ccalc TB k (s - 1) (si - 1))) (fst (ccalc TB k s si)).
+Proof.
+  intros Hs Hsi Hle HsM Hkids. rewrite !fst_ccalc.
+  replace (si - 1 + T k - (s - 1))%nat with (si + T k - s)%nat by lia.
+  apply eadd_mono; [apply ele_refl|]. apply eadd_mono; apply esum_map_mono.
+  - intros i Hi. destruct (Hkids i Hi) as [H1 H2]. rewrite H2.
+    destruct (min_of_range_spec (tval TB i) 0 (si - 1) ltac:(lia)) as (x & Hx & E & Hmin & _).
+    rewrite E. cbn [fst]. apply Hmin. lia.
+  - intros j Hj.
+    destruct (min_of_range_spec (tval TB j) (s - 1) MM ltac:(lia)) as (x & Hx & E & Hmin & _).
+    destruct (min_of_range_spec (tval TB j) s MM ltac:(lia)) as (z & Hz & E' & _ & _).
+    rewrite E, E'. cbn [fst]. apply Hmin. lia.
+Qed.
+
+Lemma inb_ge_ein k : (ein k <= inb St k)%nat.
+Proof. unfold inb, inbound_cst. apply lmax_ge_d. Qed.
+Lemma inb_ge_pred k p : In p (rpr k) -> (St p <= inb St k)%nat.
+Proof. intros Hp. unfold inb, inbound_cst. apply lmax_ge_in. apply in_map. exact Hp. Qed.
+
+Lemma sol_nlt k : (k < n)%nat -> (St k <= inb St k + T k)%nat.
+Proof.
+  intros Hk. destruct (Nat.le_gt_cases (St k) (inb St k + T k)) as [Hle|Hgt]; [exact Hle|exfalso].
+  destruct (facts k Hk) as [(A & B & (C1 & C2 & C3 & C4) & D) L].
+  pose proof (inb_ge_ein k) as He. pose proof (HMM k Hk) as HMk. pose proof (HM_ein k Hk) as Hek.
+  assert (Hkids : forall si, SIl k = si -> (inb St k < si)%nat -> forall i, In i (kup k) ->
+            (St i <= si - 1)%nat /\ fst (min_of_range (tval TB i) 0 si) = tval TB i (St i)).
+  { intros si Esi Hlt i Hi. assert (Hi' := proj1 (kup_in k i) Hi). destruct Hi' as (Hik & Hp & Hd).
+    pose proof (inb_ge_pred k i ltac:(unfold rpreds; apply in_or_app; left; exact Hi)) as Hle.
+    split; [lia|]. destruct (facts i ltac:(lia)) as [_ Li]. specialize (Li ltac:(lia)). unfold Link in Li.
+    rewrite Hd, Hp, Esi in Li. destruct Li as (_ & L2 & _). exact L2. }
+  destruct (isout k) eqn:Eo.
+  - (* theta_out node: all predecessors are kids *)
+    assert (Ho := proj1 (isout_true k) Eo). destruct Ho as [Hk1 Ed].
+    specialize (L Hk1). unfold Link in L. rewrite Ed in L. destruct L as (L1 & L2 & L3).
+    assert (ESI : SIl k = SIt k) by (unfold SIloc; rewrite Eo; reflexivity). rewrite ESI in *.
+    assert (Ekey : keyR R k = St k) by (unfold keyR; rewrite Eo; reflexivity). rewrite Ekey in *.
+    assert (Etv : tval TB k (St k) = fst (ccalc TB k (St k) (SIt k))) by (unfold tval; rewrite B; reflexivity).
+    pose proof (L3 (St k - 1)%nat ltac:(lia)) as Hfirst.
+    pose proof (out_le k (St k - 1) (SIt k - 1) Hk Eo ltac:(lia) (leo_le (St k - 1) (St k) k ltac:(lia) C4) ltac:(lia)) as H1.
+    pose proof (ccalc_shift k (St k) (SIt k) ltac:(lia) ltac:(lia) ltac:(lia) ltac:(lia) (Hkids (SIt k) eq_refl ltac:(lia))) as H2.
+    rewrite <- Etv in H2. apply (elt_not_ele _ _ Hfirst). eapply ele_trans; [exact H1|exact H2].
+  - (* theta_in node *)
+    specialize (D eq_refl).
+    assert (ESI : SIl k = Nat.max (SIt k) (ein k)) by (unfold SIloc; rewrite Eo; reflexivity). rewrite ESI in *.
+    assert (Ekey : keyR R k = SIt k) by (unfold keyR; rewrite Eo; reflexivity). rewrite Ekey in *.
+    assert (Hx : (ein k < SIt k)%nat) by lia.
+    rewrite (Nat.max_l (SIt k) (ein k)) in * by lia.
+    assert (Etv : tval TB k (SIt k) = fst (ccalc TB k (St k) (SIt k))) by (unfold tval; rewrite B; reflexivity).
+    assert (Hfirst : elt (tval TB k (SIt k)) (tval TB k (SIt k - 1))).
+    { destruct (Nat.eq_dec k (n - 1)) as [->|Hne].
+      - destruct (root_facts R 0 HRE0 ltac:(lia)) as [_ [_ RL]]. apply RL. lia.
+      - assert (Hk1 : (k < n - 1)%nat) by lia. specialize (L Hk1). unfold Link in L.
+        assert (Ed : dn k = false).
+        { unfold is_out in Eo. apply andb_false_iff in Eo. destruct Eo as [Eo|Eo]; [apply Nat.ltb_ge in Eo; lia|exact Eo]. }
+        rewrite Ed in L. destruct L as (L1 & L2 & L3). apply L3.
+        pose proof (inb_ge_pred k (par k) ltac:(apply rpr_in; [lia|]; right; split; [exact Hk1|split; [exact Ed|reflexivity]])). lia. }
+    pose proof (in_le k (SIt k - 1) (St k - 1) Hk Eo ltac:(lia)) as H1.
+    rewrite (Nat.max_l (SIt k - 1) (ein k)) in H1 by lia.
+    specialize (H1 (mineo_ge (St k - 1) (SIt k - 1 + T k) k ltac:(lia) (leo_le (St k - 1) (St k) k ltac:(lia) C4))).
+    pose proof (ccalc_shift k (St k) (SIt k) ltac:(lia) ltac:(lia) ltac:(lia) ltac:(lia) (Hkids (SIt k) eq_refl ltac:(lia))) as H2.
+    rewrite <- Etv in H2. apply (elt_not_ele _ _ Hfirst). eapply ele_trans; [exact H1|exact H2].
+Qed.
+
+Theorem sol_tfeasible : tfeasible St.
+Proof.
+  apply tfeasible_iff. intros k Hk. split; [apply sol_nlt; exact Hk|].
+  destruct (facts k Hk) as [(_ & _ & (_ & _ & _ & C4) & _) _]. exact C4.
+Qed.
+
+Lemma inb_le_SIl k : (k < n)%nat -> (inb St k <= SIl k)%nat.
+Proof.
+  intros Hk. destruct sol_rvalid as [Hnode Hedge]. destruct (Hnode k Hk) as (C1 & _).
+  unfold inb, inbound_cst. apply lmax_le; [exact C1|]. intros x Hx. apply in_map_iff in Hx. destruct Hx as (p & <- & Hp).
+  apply rpr_in in Hp; [|exact Hk]. destruct Hp as [(H1 & H2 & H3)|(H1 & H2 & H3)].
+  - pose proof (Hedge p ltac:(lia)) as He. unfold edge_ok in He. rewrite H3, H2 in He. exact He.
+  - subst p. pose proof (Hedge k H1) as He. unfold edge_ok in He. rewrite H2 in He. exact He.
+Qed.
+
+Lemma qsum_map_le {A} (f g : A -> Q) l : (forall x, In x l -> f x <= g x) -> qsum (map f l) <= qsum (map g l).
+Proof. induction l as [|x r IH]; intros H; cbn [map qsum]; [lra|].
+  pose proof (H x (or_introl eq_refl)). assert (qsum (map f r) <= qsum (map g r)) by (apply IH; intros; apply H; right; assumption). lra. Qed.
+
+(* with non-decreasing stage costs the reported cost is the safety-stock cost of exactly the returned vector *)
+Theorem sol_cost_consistent : (forall k a b, (k < n)%nat -> (a <= b)%nat -> c k a <= c k b) ->
+  exists q v, tree_cost n par dn T ein eout M MM c = Some q /\
+              solution_cost rpr T ein c (seq 0 n) St = Some v /\ v == q.
+Proof.
+  intros Hmono. destruct sol_cost as (q & Eq & Hq).
+  destruct (tree_dp_lower_bound St sol_tfeasible) as (q' & v & Eq' & Ev & Hle).
+  rewrite Eq in Eq'. injection Eq' as <-. exists q, v. split; [exact Eq|]. split; [exact Ev|].
+  destruct (solution_cost_rcost St sol_nlt) as (v' & Ev' & Hv'). rewrite Ev in Ev'. injection Ev' as <-.
+  assert (Hup : rcost St (inb St) <= rcost St SIl).
+  { unfold rcost. apply qsum_map_le. intros k Hk. apply in_seq in Hk. unfold ncost. apply Hmono; [lia|].
+    pose proof (inb_le_SIl k ltac:(lia)). lia. }
+  lra.
+Qed.
+End Final.
+
+(* ================= summary for a tree with given (valid) max replenishment times ================= *)
+Theorem tree_dp_feasible_M : exists R, tree_sol n par dn T ein eout M MM c = Some R /\ length R = n /\ tfeasible (RSt R).
+Proof.
+  destruct tree_sol_some as (R & E & L & HRE). exists R. split; [exact E|]. split; [exact L|].
+  apply sol_tfeasible. exact HRE.
+Qed.
+
+Theorem tree_dp_cost_consistent_M : (forall k a b, (k < n)%nat -> (a <= b)%nat -> c k a <= c k b) ->
+  exists R q v, tree_sol n par dn T ein eout M MM c = Some R /\ tree_cost n par dn T ein eout M MM c = Some q /\
+                solution_cost rpr T ein c (seq 0 n) (RSt R) = Some v /\ v == q.
+Proof.
+  intros Hmono. destruct tree_sol_some as (R & E & L & HRE).
+  destruct (sol_cost_consistent R HRE Hmono) as (q & v & Eq & Ev & Hv).
+  exists R, q, v. repeat split; assumption.
+Qed.
+
+(* without monotonicity: the reported cost is the cost the DP charges the returned vector with its own inbound times,
+   which dominate the true inbound times *)
+Theorem tree_dp_cost_charged_M :
+  exists R q, tree_sol n par dn T ein eout M MM c = Some R /\ tree_cost n par dn T ein eout M MM c = Some q /\
+              q == rcost (RSt R) (SIloc R) /\ forall k, (k < n)%nat -> (inb (RSt R) k <= SIloc R k)%nat.
+Proof.
+  destruct tree_sol_some as (R & E & L & HRE). destruct (sol_cost R HRE) as (q & Eq & Hq).
+  exists R, q. split; [exact E|]. split; [exact Eq|]. split; [exact Hq|]. intros k Hk. apply inb_le_SIl; assumption.
+Qed.
+End TreeP.
+
+(* ================= the computed max replenishment times satisfy the hypotheses ================= *)
+Section Replen.
+Variables (n : nat) (par : nat -> nat) (dn : nat -> bool) (T ein : nat -> nat).
+Hypothesis Hn : (1 <= n)%nat.
+Hypothesis Hpar : forall i, (i < n - 1)%nat -> (i < par i <= n - 1)%nat.
+Notation rpr := (rpreds n par dn).
+Notation tab := (replen_tab rpr T ein n).
+Definition mrep (r k : nat) : nat := nth k (tab r) 0%nat.
+Definition Mlist : list nat := tab (2 * n).
+Definition Mfun : nat -> nat := nth_fun Mlist 0%nat.
+Definition MMax : nat := lmax 0%nat Mlist.
+
+Lemma tab_length r : length (tab r) = n.
+Proof. destruct r as [|r]; cbn [replen_tab]; [apply repeat_length|]. rewrite map_length, seq_length. reflexivity. Qed.
+
+Lemma mrep_S r k : (k < n)%nat -> mrep (S r) k = (T k + lmax (ein k) (map (mrep r) (rpr k)))%nat.
+Proof. intros Hk. unfold mrep. cbn [replen_tab]. rewrite nth_map_seq by lia. reflexivity. Qed.
+
+Lemma mrep_stable : forall r k, (k < n)%nat -> (mu n dn k < r)%nat -> mrep r k = mrep (S r) k.
+Proof.
+  induction r as [|r IH]; intros k Hk Hmu; [lia|].
+  rewrite (mrep_S (S r)), (mrep_S r) by exact Hk. f_equal. f_equal.
+  apply map_ext_in. intros p Hp.
+  destruct (mu_pred n par dn (fun _ => None) (fun _ _ => 0) Hn Hpar k p Hk Hp) as [Hpn Hlt].
+  apply IH; [exact Hpn|lia].
+Qed.
+
+Lemma mu_lt k : (k < n)%nat -> (mu n dn k < 2 * n)%nat.
+Proof. intros Hk. unfold mu. destruct (is_out n dn k); lia. Qed.
+
+Lemma Mfun_eq k : (k < n)%nat -> Mfun k = (T k + lmax (ein k) (map Mfun (rpr k)))%nat.
+Proof.
+  intros Hk. unfold Mfun, nth_fun, Mlist.
+  remember (2 * n - 1)%nat as r eqn:Er. assert (E : (2 * n)%nat = S r) by lia. rewrite E.
+  fold (mrep (S r) k). rewrite mrep_S by exact Hk. f_equal. f_equal.
+  apply map_ext_in. intros p Hp.
+  destruct (mu_pred n par dn (fun _ => None) (fun _ _ => 0) Hn Hpar k p Hk Hp) as [Hpn Hlt].
+  pose proof (mu_lt k Hk). fold (mrep (S r) p). apply mrep_stable; [exact Hpn|lia].
+Qed.
+
+Lemma Mfun_ein k : (k < n)%nat -> (ein k + T k <= Mfun k)%nat.
+Proof. intros Hk. rewrite Mfun_eq by exact Hk. pose proof (lmax_ge_d (ein k) (map Mfun (rpr k))). lia. Qed.
+
+Lemma Mfun_pred k p : (k < n)%nat -> In p (rpr k) -> (Mfun p + T k <= Mfun k)%nat.
+Proof. intros Hk Hp. rewrite (Mfun_eq k) by exact Hk.
+  pose proof (lmax_ge_in (ein k) (map Mfun (rpr k)) (Mfun p) (in_map Mfun _ _ Hp)). lia. Qed.
+
+Lemma Mfun_edge i : (i < n - 1)%nat ->
+  if dn i then (Mfun i + T (par i) <= Mfun (par i))%nat else (Mfun (par i) + T i <= Mfun i)%nat.
+Proof.
+  intros Hi. pose proof (Hpar i Hi) as Hp. destruct (dn i) eqn:Ed.
+  - apply Mfun_pred; [lia|]. apply (rpr_in n par dn (fun _ => None) (fun _ _ => 0) Hn); [lia|]. left. split; [lia|split; [reflexivity|exact Ed]].
+  - apply Mfun_pred; [lia|]. apply (rpr_in n par dn (fun _ => None) (fun _ _ => 0) Hn); [lia|]. right. split; [exact Hi|split; [exact Ed|reflexivity]].
+Qed.
+
+Lemma Mfun_le_MMax k : (k < n)%nat -> (Mfun k <= MMax)%nat.
+Proof. intros Hk. unfold MMax. apply lmax_ge_in. unfold Mfun, nth_fun. apply nth_In. unfold Mlist. rewrite tab_length. exact Hk. Qed.
+End Replen.
+
+(* ================= final theorems: preprocess (max replenishment times) + DP + backtracking ================= *)
+Section TreeRun.
+Variables (n : nat) (par : nat -> nat) (dn : nat -> bool) (T ein : nat -> nat) (eout : nat -> option nat) (c : nat -> nat -> Q).
+Hypothesis Hn : (1 <= n)%nat.
+Hypothesis Hpar : forall i, (i < n - 1)%nat -> (i < par i <= n - 1)%nat.
+Notation M := (Mfun n par dn T ein).
+Notation MM := (MMax n par dn T ein).
+Notation rpr := (rpreds n par dn).
+
+Theorem tree_dp_feasible :
+  exists R, tree_sol n par dn T ein eout M MM c = Some R /\ length R = n /\
+            feasible rpr T ein eout (seq 0 n) (RSt R) = true.
+Proof.
+  exact (tree_dp_feasible_M n par dn T ein eout M MM c Hn Hpar (Mfun_ein n par dn T ein Hn Hpar)
+           (Mfun_edge n par dn T ein Hn Hpar) (Mfun_le_MMax n par dn T ein)).
+Qed.
+
+Theorem tree_dp_cost_consistent : (forall k a b, (k < n)%nat -> (a <= b)%nat -> c k a <= c k b) ->
+  exists R q v, tree_sol n par dn T ein eout M MM c = Some R /\ tree_cost n par dn T ein eout M MM c = Some q /\
+                solution_cost rpr T ein c (seq 0 n) (RSt R) = Some v /\ v == q.
+Proof.
+  exact (tree_dp_cost_consistent_M n par dn T ein eout M MM c Hn Hpar (Mfun_ein n par dn T ein Hn Hpar)
+           (Mfun_edge n par dn T ein Hn Hpar) (Mfun_le_MMax n par dn T ein)).
+Qed.
+
+Theorem tree_dp_optimal St : feasible rpr T ein eout (seq 0 n) St = true ->
+  exists q v, tree_cost n par dn T ein eout M MM c = Some q /\
+              solution_cost rpr T ein c (seq 0 n) St = Some v /\ q <= v.
+Proof.
+  exact (tree_dp_lower_bound n par dn T ein eout M MM c Hn Hpar (Mfun_ein n par dn T ein Hn Hpar)
+           (Mfun_edge n par dn T ein Hn Hpar) (Mfun_le_MMax n par dn T ein) St).
+Qed.
+
+Theorem tree_dp_cost_charged :
+  exists R q, tree_sol n par dn T ein eout M MM c = Some R /\ tree_cost n par dn T ein eout M MM c = Some q /\
+              q == rcost n T c (RSt R) (SIloc n dn ein R) /\
+              forall k, (k < n)%nat -> (inbound_cst rpr ein (RSt R) k <= SIloc n dn ein R k)%nat.
+Proof.
+  exact (tree_dp_cost_charged_M n par dn T ein eout M MM c Hn Hpar (Mfun_ein n par dn T ein Hn Hpar)
+           (Mfun_edge n par dn T ein Hn Hpar) (Mfun_le_MMax n par dn T ein)).
+Qed.
+
+(* every feasible vector lies in [0, max replenishment time]: the oracle's enumeration box is exhaustive *)
+Theorem feasible_within_replenishment_times St : feasible rpr T ein eout (seq 0 n) St = true ->
+  forall k, (k < n)%nat -> (St k <= M k)%nat.
+Proof.
+  intros Hf k Hk.
+  exact (proj2 (feasible_le_M n par dn T ein eout M c Hn Hpar (Mfun_ein n par dn T ein Hn Hpar)
+           (Mfun_edge n par dn T ein Hn Hpar) St Hf k Hk)).
+Qed.
+End TreeRun.
+
+(* the list-level entry point is exactly this instance *)
+Lemma gsm_tree_run_eq parl dnl Tl einl eoutl ctab :
+  let n := length Tl in
+  let par := nth_fun parl 0%nat in let dn := nth_fun dnl false in
+  let T := nth_fun Tl 0%nat in let ein := nth_fun einl 0%nat in let eout := nth_fun eoutl None in
+  let c := ctab_fun ctab in
+  gsm_tree_run parl dnl Tl einl eoutl ctab =
+  (tree_sol n par dn T ein eout (Mfun n par dn T ein) (MMax n par dn T ein) c,
+   tree_cost n par dn T ein eout (Mfun n par dn T ein) (MMax n par dn T ein) c,
+   Mlist n par dn T ein).
+Proof. reflexivity. Qed.
